@@ -152,9 +152,12 @@ package runner
 //@   requires [fits_the_row] runeLen(left + (len(extra) > 0 ? extra[0] : "") + strings.Join(p.indents, "")) <= 60
 
 // the DI container calls this decorator only for services tagged step-runner-verbose
+// (that precondition - every service tagged step-runner-verbose implements Step - is a fact of
+// internal/gontainer/gontainer_runner.yaml: evaluated by the composition test, not proved)
 //@ func DecorateStepVerboseSwitchable
-//@   property C12
-//@   trusted "composition root: the unchecked assertion payload.Service.(Step) relies on every service tagged step-runner-verbose implementing Step, which is a fact of internal/gontainer/gontainer_runner.yaml (evaluated by the composition test, not proved)"
+//@   property C12 C10 C16
+//@   requires [decorated_service_is_a_step] implements(payload.Service, Step)
+//@   ensures [wraps_the_service_active_by_default] result != nil && result.printer == p && result.indenter == i && result.active
 
 // C12 / C09: reading the configuration never panics; files are folded into *i with input.Merge in the order
 // (pattern order, findFiles order). (The fold itself is not specified here; see DESIGN.md, C09.)
